@@ -24,6 +24,9 @@ def _scratch():
 
 def _run(pid, tmp):
     env = dict(os.environ, VERIF_REPO=tmp, VERIF_EVIDENCE_DIR=os.path.join(tmp, '_ev'), VERIF_TIER='quick')
+    if os.environ.get('VERIF_AUDIT_SUBJOBS'):
+        env['VERIF_JOBS'] = os.environ['VERIF_AUDIT_SUBJOBS']      # processes each audited run may use
+    env.pop('VERIF_AUDIT_BENIGN', None)
     r = subprocess.run([os.path.join(HERE, 'check'), pid, '--tier', 'quick'], capture_output=True, text=True, timeout=900, cwd=HERE, env=env)
     first = [l for l in r.stdout.splitlines() if '[' in l and not l.startswith(('VIOLATION', 'KNOWN'))][:1]
     return r.returncode, (first or [''])[0][:200]
